@@ -76,6 +76,7 @@ const (
 	FaultEmptyCert   = "empty-certificate"
 	FaultGarbageCert = "garbage-certificate"
 	FaultZeroKey     = "zero-key"
+	FaultMismatch    = "certificate-of-another-key"
 	FaultEmptyID     = "ok-with-empty-id" // CreateAuthRequest only
 	FaultCtxDeadline = "error-context-deadline"
 	FaultCtxCanceled = "error-context-canceled"
@@ -217,6 +218,24 @@ func (s *Store) FaultAt(op string, occ int, kind string) {
 	s.mu.Unlock()
 }
 
+// PendingFault returns the kind of a planned fault of op that has not fired yet ("" = none).
+func (s *Store) PendingFault(op string) string {
+	s.mu.Lock()
+	defer s.mu.Unlock()
+	for k, kind := range s.faults {
+		i := strings.LastIndex(k, "#")
+		if k[:i] != op {
+			continue
+		}
+		var n int
+		fmt.Sscanf(k[i+1:], "%d", &n)
+		if n > s.occ[op] {
+			return kind
+		}
+	}
+	return ""
+}
+
 // Fired lists the planned faults that were actually injected, in order.
 func (s *Store) Fired() []string {
 	s.mu.Lock()
@@ -304,6 +323,8 @@ func (s *Store) keyAnswer(idx int, fault string, base *key.CertificateAndKey) (*
 		return &key.CertificateAndKey{Certificate: []byte("not a certificate"), Key: base.Key}, nil
 	case FaultZeroKey:
 		return &key.CertificateAndKey{Certificate: base.Certificate, Key: &rsa.PrivateKey{}}, nil
+	case FaultMismatch:
+		return &key.CertificateAndKey{Certificate: SPB.DER, Key: base.Key}, nil
 	}
 	panic("world: unknown key fault " + fault)
 }
